@@ -79,7 +79,7 @@ pub const NULL_HDRS: &[[u8; 4]] = &[[0x02, 0, 0, 0], [0x18, 0, 0, 0], [0x1c, 0, 
     [0, 0, 0, 0x02], [0, 0, 0, 0x1e], [0, 0, 0, 0x1c], [0x1e, 1, 0, 0], [0x1f, 0, 0, 0]];
 
 pub const ADDR4: &[[u8; 4]] = &[[10, 0, 0, 1], [10, 0, 0, 2], [192, 168, 1, 1], [192, 168, 1, 77], [172, 16, 5, 5], [8, 0, 3, 4], [134, 221, 16, 9],
-    [134, 221, 64, 1], [134, 221, 96, 2], [0, 0, 0, 0], [255, 255, 255, 255], [69, 0, 0, 40], [96, 0, 0, 0]];
+    [134, 221, 64, 1], [134, 221, 96, 2], [8, 0, 69, 0], [8, 0, 70, 16], [0, 0, 0, 0], [255, 255, 255, 255], [69, 0, 0, 40], [96, 0, 0, 0]];
 pub fn addr4(r: &mut Rng) -> [u8; 4] { if r.chance(4, 5) { *r.pick(ADDR4) } else { let b = r.bytes(4); [b[0], b[1], b[2], b[3]] } }
 pub fn addr6(r: &mut Rng) -> [u8; 16] {
     let mut a = [0u8; 16];
@@ -167,13 +167,47 @@ impl Conn {
 }
 
 #[derive(Clone, Copy)]
-pub enum Framing { Eth, Raw, Null([u8; 4]), Vlan, EthMac(u8) }
+/// EthAlias4(b): Ethernet whose header also reads as the start of a raw IPv4 packet (dst MAC octet 0 = b in 0x40..0x4f,
+/// src MAC octet 3 = 6 = the byte where IPv4 keeps "protocol TCP"); EthAlias6(b): ... of a raw IPv6 packet (dst MAC
+/// octet 0 = b in 0x60..0x6f, src MAC octet 0 = 6 = the next-header byte).  Real NICs have such MACs (44:d8:84.., 60:..).
+pub enum Framing { Eth, Raw, Null([u8; 4]), Vlan, EthMac(u8), EthAlias4(u8), EthAlias6(u8) }
 pub fn wrap(fr: Framing, v6: bool, ip: &[u8]) -> Vec<u8> {
     let et = if v6 { 0x86DD } else { 0x0800 };
-    match fr { Framing::Eth => eth(et, ip), Framing::Raw => ip.to_vec(), Framing::Null(h) => null(h, ip), Framing::Vlan => vlan(et, ip), Framing::EthMac(b) => eth_mac(b, et, ip) }
+    match fr { Framing::Eth => eth(et, ip), Framing::Raw => ip.to_vec(), Framing::Null(h) => null(h, ip), Framing::Vlan => vlan(et, ip), Framing::EthMac(b) => eth_mac(b, et, ip),
+               Framing::EthAlias4(b) => eth_alias(b, 9, et, ip), Framing::EthAlias6(b) => eth_alias(b, 6, et, ip) }
+}
+/// Ethernet header with dst MAC octet 0 = b0 and header byte `six_at` = 6; the other MAC octets vary with b0
+pub fn eth_alias(b0: u8, six_at: usize, ethertype: u16, inner: &[u8]) -> Vec<u8> {
+    let mut f = vec![b0, 0xd8, 0x84, 0x10, 0x20, 0x30, 0x48, 0xd7, 0x05, 0x40, 0x50, b0.wrapping_mul(3)];
+    f[six_at] = 6;
+    f.extend_from_slice(&ethertype.to_be_bytes());
+    f.extend_from_slice(inner);
+    f
+}
+/// endpoints a decoder would read if the bytes `p` were an IPv4 / IPv6 packet (minimal checks, like extract_ipv*_info);
+/// generator-side only: used to aim filter constants at both readings of an ambiguous frame
+pub fn reading_v4(p: &[u8]) -> Option<Ep> {
+    if p.len() < 20 || p[9] != 6 { return None; }
+    let off = 4 * ((p[0] & 0x0f) as usize).max(5);
+    if p.len() < off + 4 { return None; }
+    Some((IpAddr::V4([p[12], p[13], p[14], p[15]].into()), IpAddr::V4([p[16], p[17], p[18], p[19]].into()),
+          u16::from_be_bytes([p[off], p[off + 1]]), u16::from_be_bytes([p[off + 2], p[off + 3]])))
+}
+pub fn reading_v6(p: &[u8]) -> Option<Ep> {
+    if p.len() < 44 || p[6] != 6 { return None; }
+    let mut a = [0u8; 16]; a.copy_from_slice(&p[8..24]);
+    let mut b = [0u8; 16]; b.copy_from_slice(&p[24..40]);
+    Some((IpAddr::V6(a.into()), IpAddr::V6(b.into()), u16::from_be_bytes([p[40], p[41]]), u16::from_be_bytes([p[42], p[43]])))
+}
+/// every reading of a frame under Ethernet and under raw IP framing
+pub fn readings(f: &[u8]) -> Vec<Ep> {
+    let mut v = Vec::new();
+    if f.len() >= 14 { match (f[12], f[13]) { (0x08, 0x00) => v.extend(reading_v4(&f[14..])), (0x86, 0xdd) => v.extend(reading_v6(&f[14..])), _ => {} } }
+    if !f.is_empty() { match f[0] >> 4 { 4 => v.extend(reading_v4(f)), 6 => v.extend(reading_v6(f)), _ => {} } }
+    v
 }
 pub fn framing(r: &mut Rng, allow_null: bool) -> Framing {
-    match r.below(10) { 0..=4 => Framing::Eth, 5 | 6 => Framing::Raw, 7 if allow_null => Framing::Null(*r.pick(NULL_HDRS)), 8 => Framing::EthMac(*r.pick(&[0x45u8, 0x46, 0x60, 0x1e])), 9 if r.chance(1, 3) => Framing::Vlan, _ => Framing::Eth }
+    match r.below(10) { 0..=4 => Framing::Eth, 5 | 6 => Framing::Raw, 7 if allow_null => Framing::Null(*r.pick(NULL_HDRS)), 8 => match r.below(4) { 0 => Framing::EthMac(*r.pick(&[0x45u8, 0x46, 0x60, 0x1e])), 1 | 2 => Framing::EthAlias4(0x40 + r.below(16) as u8), _ => Framing::EthAlias6(0x60 + r.below(16) as u8) }, 9 if r.chance(1, 3) => Framing::Vlan, _ => Framing::Eth }
 }
 
 
